@@ -53,7 +53,7 @@ class ExprMixin:
         if name in (getattr(self.d.contract, 'pure_ctors', None) or []):
             return SBuiltin('purector!' + name)
         g = self.d.contract.globals
-        if name in g:
+        if name in g and g[name] is not None:       # None: the real module-level binding, made nameable in contract lambdas
             return self.sym_cases_fixed(g[name], f'g.{name}')
         if name in mod.defs:
             node = mod.defs[name][-1]
@@ -626,7 +626,7 @@ class ExprMixin:
             k = self.as_int(key)
             L = z3.Length(seq.t)
             if not self.specmode:
-                if isinstance(base, SDyn) and self.branch(z3.Not(Val.is_VSeq(base.t))):
+                if isinstance(base, SDyn) and not self.d.contract_assumes('ITERABLE') and self.branch(z3.Not(Val.is_VSeq(base.t))):
                     raise PyRaise('TypeError', ln, 'value is not subscriptable')
                 if self.branch(z3.Or(k < -L, k >= L)):
                     raise PyRaise('IndexError', ln, 'index out of range')
@@ -757,6 +757,11 @@ class ExprMixin:
                 return SBuiltin('object.__init__', base.self_)
             raise Unsupported(f'super().{name}')
         if isinstance(base, SDyn):
+            if name == '__name__' and not (isinstance(base.shape, S.Rec) and name in base.shape.attrs):
+                # the name of a class (or function) object is a string
+                t = self.fld(name, base.t, base.old)
+                self.assume(Val.is_VStr(t))
+                return self.from_val(t, S.Str())
             if isinstance(base.shape, S.Rec) and name in base.shape.attrs:
                 r = self.from_val(self.fld(name, base.t, base.old), base.shape.attrs[name])
                 if base.old and isinstance(r, (SDyn, SSeq)):
